@@ -2,7 +2,8 @@
 
 PROPS = {
     "C01": {
-        "quick": [{"module": "MC_C01", "cfg": "MC_C01_quick.cfg", "nprimes": 6}],
+        "quick": [{"module": "MC_C01", "cfg": "MC_C01_quick.cfg", "nprimes": 6},
+                  {"module": "MC_PROD", "cfg": "MC_PROD_quick.cfg", "nprimes": 10}],
         "level_text": "Exhaustive TLC exploration of every configuration of the product operations on an exact model (proves the pointwise-product identity for all evaluation points via a unisolvent lattice), bound to the code by replaying every explored behaviour and comparing all observables at 1e-8.",
         "level_note": "Inputs range over exact rational menus (D<=2 quick / D<=3 thorough, R<=3); code conformance is established on the explored behaviours only; trusted: TLC, CRT decoding, float64 rounding below tolerance on cond<1e2 inputs.",
         "explanation": "TLC enumerates every configuration (measure kind x constructor mode x cache state x factor kind x "
